@@ -714,24 +714,86 @@ func c17_4(c *core.Ctx, p *core.Prog) {
 		}
 		var arms []arm
 		var srcVal ssa.Value
-		core.EachInstr(host, func(i ssa.Instruction) {
-			iff, ok := i.(*ssa.If)
-			if !ok {
-				return
+		findArms := func() {
+			core.EachInstr(host, func(i ssa.Instruction) {
+				iff, ok := i.(*ssa.If)
+				if !ok {
+					return
+				}
+				cmp, ok := iff.Cond.(*ssa.BinOp)
+				if !ok || cmp.Op != token.EQL || core.TypeName(cmp.X.Type()) != "ValueType" {
+					return
+				}
+				k, ok := core.ConstInt(cmp.Y)
+				if !ok {
+					return
+				}
+				if tc, ok := cmp.X.(*ssa.Call); ok {
+					srcVal = tc.Call.Args[0]
+				}
+				arms = append(arms, arm{k, iff})
+			})
+		}
+		findArms()
+		inHelper := false
+		if len(arms) == 0 {
+			// the switch is shared: the site hands the source element and a fresh element of the copy to a
+			// package function that switches over the type of the element it was given
+			var hcall *ssa.Call
+			core.EachInstr(host, func(i ssa.Instruction) {
+				cl, ok := i.(*ssa.Call)
+				if !ok || hcall != nil {
+					return
+				}
+				h := cl.Call.StaticCallee()
+				if h == nil || h.Blocks == nil || core.FnPkgPath(h) != core.ObfPath {
+					return
+				}
+				srcOK, dstOK := false, false
+				for _, arg := range cl.Call.Args {
+					if core.TypeName(arg.Type()) != "Value" {
+						continue
+					}
+					ca := core.Canon(arg)
+					if g, ok := ca.(*ssa.Call); ok {
+						if f := pdataCallee(g); f != nil && f.Name() == "At" && core.Canon(g.Call.Args[0]) == core.Canon(s.src) {
+							srcOK = true
+						}
+						if isInsertInto(g, s.newCall) {
+							dstOK = true
+						}
+					}
+					if pr, ok := ca.(*ssa.Parameter); ok && host != s.fn && pr.Parent() == host {
+						srcOK = true // the value the Range callback was given
+					}
+				}
+				if srcOK && dstOK {
+					hcall = cl
+				}
+			})
+			if hcall != nil {
+				host = hcall.Call.StaticCallee()
+				inHelper = true
+				findArms()
+				if _, isP := srcVal.(*ssa.Parameter); !isP {
+					srcVal = nil
+				} else {
+					// the element switched over is the one the site passed as source
+					idx := -1
+					for k, q := range host.Params {
+						if ssa.Value(q) == srcVal {
+							idx = k
+						}
+					}
+					ca := core.Canon(hcall.Call.Args[idx])
+					_, fromPar := ca.(*ssa.Parameter)
+					g, isCall := ca.(*ssa.Call)
+					if !(fromPar || (isCall && pdataCallee(g) != nil && pdataCallee(g).Name() == "At")) {
+						srcVal = nil
+					}
+				}
 			}
-			cmp, ok := iff.Cond.(*ssa.BinOp)
-			if !ok || cmp.Op != token.EQL || core.TypeName(cmp.X.Type()) != "ValueType" {
-				return
-			}
-			k, ok := core.ConstInt(cmp.Y)
-			if !ok {
-				return
-			}
-			if tc, ok := cmp.X.(*ssa.Call); ok {
-				srcVal = tc.Call.Args[0]
-			}
-			arms = append(arms, arm{k, iff})
-		})
+		}
 		if len(arms) == 0 || srcVal == nil {
 			c.Undecided(base, p.Pos(host.Pos()), core.FuncName(host), "no switch over the value type found")
 			continue
@@ -891,7 +953,7 @@ func c17_4(c *core.Ctx, p *core.Prog) {
 		if ok, _ := (core.PathQuery{Fn: host, From: firstInstrOfChain(first), Avoid: isVerb, CutEdges: cut, ExitReturnOnly: true}).Exists(); ok {
 			okDef = false
 		}
-		if !s.isMap {
+		if !s.isMap && !inHelper {
 			// loop form: path back to the loop header instead of a return
 			okDef = true
 			for _, b := range host.Blocks {
